@@ -5,6 +5,7 @@ counted on the wire), plus a differential isolation check: a failing request nex
 
 import asyncio
 import inspect
+import itertools
 
 from .. import core, refcodec as rc
 from ..core import Result, Violation
@@ -248,6 +249,42 @@ def run_cell(res, oname, slow, method, con, situation):
         w.dispose()
 
 
+def nosite_sequence(res, types):
+    """A context without a site answers every request that reaches it with its own 4.04: several requests in a row (CON / NON in
+    every order, from two peers), each of them answered once, under its own token, with the type and message ID that fit it."""
+    w = World()
+    try:
+        w.add_context("srv", *SRV, site=None)
+        w.add_peer(AutoAck("p1", *P1))
+        w.add_peer(AutoAck("p2", *P2))
+        case = {"nosite_sequence": list(types)}
+        res.evaluations += 1
+        res.traces += 1
+        got, want = [], []
+        for i, con in enumerate(types):
+            peer = P1 if i % 2 == 0 else P2
+            tok = bytes([0xD0 + i])
+            mid = 0x3300 + i
+            n0 = len(w.sent)
+            w.inject(peer, SRV, rc.encode((rc.CON if con else rc.NON, 1, mid, tok, [(11, b"anything")], b"")))
+            serve(w, w.loop.time() + 1.0)
+            out = [rc.decode(d.data, check_formats=False) for d in w.sent[n0:] if d.src == SRV]
+            got.append([(d.dst == peer, m[0], m[1], m[2] if m[0] == rc.ACK else "own", m[3]) for d, m in zip([d for d in w.sent[n0:] if d.src == SRV], out)])
+            want.append([(True, rc.ACK, 132, mid, tok)] if con else [(True, rc.NON, 132, "own", tok)])
+        if got != want:
+            res.violate(Violation("final-response", core.jsonable(want), core.jsonable(got), "protocol.py:Context._render_to_pipe", case, trace=w.trace[-20:],
+                                  key="nosite-sequence"))
+        for msg, e in w.loop_exceptions():
+            res.violate(Violation("loop-exception", "none", core.exc_desc(e) if e else msg, core.site_of(e) if e else "loop", case,
+                                  key=type(e).__name__ if e else msg[:40]))
+        res.states.add(core.digest(("nosite", types, core.jsonable(got))))
+        res.transitions += len(types)
+        res.outcomes.add(core.digest(("nosite", got == want)))
+        res.signatures.add(core.digest(("nosite", types)))
+    finally:
+        w.dispose()
+
+
 def token_reuse(res, con, gap):
     """A second request on the same token (new message ID) while the first is still in the handler: the superseding
     request must still get exactly one final response (what happens to the superseded one is a don't-care)."""
@@ -445,6 +482,9 @@ def job(arg):
             run_cell(res, *c)
         res.sample({"cell(outcome,slow,method,con,situation)": list(items[0])})
     elif kind == "reuse":
+        for n in (1, 2, 3):
+            for types in itertools.product((True, False), repeat=n):
+                nosite_sequence(res, types)
         for con in (True, False):
             for gap in (0.05, 0.2, 0.45):
                 token_reuse(res, con, gap)
@@ -541,6 +581,9 @@ def run(tier, seed, jobs):
 
 def replay(case, scenario, seed):
     res = Result()
+    if "nosite_sequence" in case:
+        nosite_sequence(res, tuple(case["nosite_sequence"]))
+        return [v for v, n in res.violations.values()]
     if "giveup_then_later" in case:
         giveup_then_later(res, *case["giveup_then_later"])
         return [v for v, n in res.violations.values()]
